@@ -107,6 +107,18 @@ theorem tod_slice_iff {α} (df : Rows α) (a b : Int) (hab : a ≤ b) (l u : Boo
   simp only [sliceWrap, this, if_false] at hr
   rw [slice_iff df r _ _ oc l u h hr, lbOk_iff, ubOk_iff]
 
+/-- `df_slice` on one frame is the plain slice unless BOTH bounds are times of day with the start later than the end
+    (a date mixed with a time of day, or start `≤` end, never wraps) -/
+theorem no_wrap {α} (df : Rows α) (lb ub : Bound) (oc : Option (List Char))
+    (h : ∀ a b, lb = .time a → ub = .time b → a ≤ b) : sliceWrap df lb ub oc = sliceOne df lb ub oc := by
+  unfold sliceWrap
+  split
+  · rename_i a b
+    have := h a b rfl rfl
+    have hn : ¬ b < a := by omega
+    simp [hn]
+  · rfl
+
 /-- **wrap_iff**: a window whose start is later than its end wraps past midnight: the rows at or after the
     start OR at or before the end, each test with its own bracket; rows, values and order untouched -/
 theorem wrap_spec {α} (df : Rows α) (hs : df.Pairwise (fun x y => x.1 < y.1)) (a b : Int) (hab : b < a) (l u : Bool)
